@@ -20,7 +20,7 @@ RULE = ("the C03 histories with more duplicate / replace / dataclasses.replace o
         "object (`is`); ids and get_any / get of every held node (registry membership of original and copy). "
         "non-trivial = at least one duplicate or replace took effect; distinct = distinct input terms")
 TRUSTED_BASE = c03.TRUSTED_BASE
-ASSUMPTIONS = c03.ASSUMPTIONS + ["C14_dup_eq (copy == original at every position) is established by comparison on every Dup, not proved in Coq"]
+ASSUMPTIONS = c03.ASSUMPTIONS + ["C14_dup_eq is proved on reified trees (Proofs/RegistryReify.v); that the machine's own node_eq (the == printed for every Dup) is eqn on the reified trees is not proved - it is compared with pyoak's == on every Dup"]
 
 C14_IDX = (0, 1, 2, 4)
 
